@@ -255,6 +255,10 @@ pub fn grow_alphabet(n: usize, len: usize) -> Vec<Act> {
     for mm in 0..=2 * n + 1 {
         v.push(Extend(mm));
         v.push(ExtendFromSlice(mm));
+        // the iterator's size_hint is part of the input: exact, loose upper bound, lower bound only
+        for h in [0, 2, 3] {
+            v.push(ExtendHint(mm, h));
+        }
     }
     v.extend([Fill, FillWith, FillSpare, FillSpareWith, MakeContiguous]);
     // drains: every valid half-open range, three scripts
